@@ -21,7 +21,10 @@ func exercise(s *fileseq.FileSequence, in string) {
 	for _, tpl := range []string{"{{dir}}{{base}}{{frange}}{{pad}}{{ext}}", in, "{{" + in + "}}", "{{startf}}-{{endf}} {{len}} {{zfill}} {{inverted}}",
 		"{{dir", "{{nope}}", "{{len | printf \"%d\"}}", "{{template \"x\"}}", "{{index . \"dir\"}}", "{{if startf}}a{{end}}"} {
 		_, _ = s.Format(tpl)
+		_, _ = s.Format(tpl) // a second call with the same text on the same object (caches)
 	}
+	_, _ = s.Format("{{dir")
+	_, _ = s.Format("{{dir")
 	for _, fr := range []interface{}{1, -1, in, []byte(in), strer(in), 1.5, nil, "0007"} {
 		_, _ = s.Frame(fr)
 	}
@@ -120,11 +123,11 @@ func genFuzz(r *Rand, n int, thorough bool, emit func(string)) {
 		"u.%(UDIM)d.tif", "{{dir}}{{base}}", "a\nb.1.exr", "\xff\xfe.1#.\x80", "#", "@@@", "-", ",", ".", "..", "/", "//", "a.", ".a",
 		"1", "-1", "-0", "1-", "-1--2", "1--", "1,,2", "1-2-3", "x", "1x", "1-2x", "1-2x0", "%d", "%", "$F", "$", "<UDIM", "%(UDIM)",
 		"foo.1.2.3.exr", "foo1", "foo-1.exr", "foo.-1.exr", "foo.0001-0010#.exr", "a b.1 - 5 #.exr", "%04d", "name.%d%d.ext",
-		"🎬.1-3#.exr", "a/b/../c.1@.x", "\x00.1#", "{{.}}", "{{", "}}"}
+		"+5", "+0010", "+0", "+1-10", "1-+5", "1-5x+2", "/a/f.+5#.exr", "🎬.1-3#.exr", "a/b/../c.1@.x", "\x00.1#", "{{.}}", "{{", "}}"}
 	for _, c := range corpus {
 		emit("fuzz " + hx(c))
 	}
-	alphabet := "0123456789-,xy:#@%d$F<UDIM>().{}/ \n\tab\xff\x80é"
+	alphabet := "0123456789-+,xy:#@%d$F<UDIM>().{}/ \n\tab\xff\x80é"
 	for i := 0; i < n; i++ {
 		var s string
 		switch r.Intn(5) {
